@@ -433,23 +433,59 @@ mutual
 end
 end
 
+section
+variable {β γ : Type} (g : β → Nat → γ) (idx : β → Nat)
 mutual
-  /-- set every binder's index to 0, keep variables -/
-  def zeroBinders : Term DeBruijn → Term DeBruijn
-    | .var n => .var n
-    | .delay t => .delay (zeroBinders t)
-    | .lam _ b => .lam 0 (zeroBinders b)
-    | .app g a => .app (zeroBinders g) (zeroBinders a)
+  /-- forget what a binder's own index says (it carries no information): binder `n ↦ g n 0`,
+  variable `n ↦ g n (idx n)` -/
+  def normBinders : Term β → Term γ
+    | .var n => .var (g n (idx n))
+    | .delay t => .delay (normBinders t)
+    | .lam n b => .lam (g n 0) (normBinders b)
+    | .app f a => .app (normBinders f) (normBinders a)
     | .const c => .const c
-    | .force t => .force (zeroBinders t)
+    | .force t => .force (normBinders t)
     | .error => .error
     | .builtin b => .builtin b
-    | .constr tag fs => .constr tag (zeroBindersList fs)
-    | .case c bs => .case (zeroBinders c) (zeroBindersList bs)
-  def zeroBindersList : List (Term DeBruijn) → List (Term DeBruijn)
+    | .constr tag fs => .constr tag (normBindersList fs)
+    | .case c bs => .case (normBinders c) (normBindersList bs)
+  def normBindersList : List (Term β) → List (Term γ)
     | [] => []
-    | t :: ts => zeroBinders t :: zeroBindersList ts
+    | t :: ts => normBinders t :: normBindersList ts
 end
+end
+
+/-- a de Bruijn term with every binder's index set to 0 -/
+def zeroBinders (t : Term DeBruijn) : Term DeBruijn := normBinders (fun _ i => i) id t
+/-- the index skeleton of a named-de-Bruijn term (binder indices 0) -/
+def zeroBindersNamed (t : Term NamedDeBruijn) : Term NamedDeBruijn :=
+  normBinders (fun n i => ⟨n.text, i⟩) NamedDeBruijn.index t
+
+-- ---------------------------------------------------------------- alpha-equivalence (spec)
+mutual
+  /-- alpha-equivalence of named terms under the binder environments `e1`, `e2`
+  (innermost first): binding is by unique, texts are ignored; a bound variable must
+  refer to the binder at the same position, a free one must be the same unique. -/
+  inductive AlphaEq : List Int → List Int → Term Name → Term Name → Prop
+    | var {e1 e2 a b} : resolve e1 a.unique = resolve e2 b.unique →
+        (resolve e1 a.unique = none → a.unique = b.unique) → AlphaEq e1 e2 (.var a) (.var b)
+    | lam {e1 e2 a b x y} : AlphaEq (a.unique :: e1) (b.unique :: e2) x y → AlphaEq e1 e2 (.lam a x) (.lam b y)
+    | app {e1 e2 f g x y} : AlphaEq e1 e2 f g → AlphaEq e1 e2 x y → AlphaEq e1 e2 (.app f x) (.app g y)
+    | delay {e1 e2 x y} : AlphaEq e1 e2 x y → AlphaEq e1 e2 (.delay x) (.delay y)
+    | force {e1 e2 x y} : AlphaEq e1 e2 x y → AlphaEq e1 e2 (.force x) (.force y)
+    | error {e1 e2} : AlphaEq e1 e2 .error .error
+    | builtin {e1 e2 b} : AlphaEq e1 e2 (.builtin b) (.builtin b)
+    | const {e1 e2 c} : AlphaEq e1 e2 (.const c) (.const c)
+    | constr {e1 e2 tag xs ys} : AlphaEqL e1 e2 xs ys → AlphaEq e1 e2 (.constr tag xs) (.constr tag ys)
+    | case {e1 e2 x y xs ys} : AlphaEq e1 e2 x y → AlphaEqL e1 e2 xs ys → AlphaEq e1 e2 (.case x xs) (.case y ys)
+  inductive AlphaEqL : List Int → List Int → List (Term Name) → List (Term Name) → Prop
+    | nil {e1 e2} : AlphaEqL e1 e2 [] []
+    | cons {e1 e2 x y xs ys} : AlphaEq e1 e2 x y → AlphaEqL e1 e2 xs ys → AlphaEqL e1 e2 (x :: xs) (y :: ys)
+end
+
+/-- `c` is larger than every unique in scope and the uniques in scope are distinct
+(the situation of index→name, which hands out `c, c+1, …`) -/
+def Fresh (env : List Int) (c : Int) : Prop := env.Nodup ∧ ∀ u ∈ env, u < c
 
 -- ---------------------------------------------------------------- CodeGenInterner (optimize/interner.rs)
 /-- `CodeGenInterner { identifiers: HashMap<InternKey, Vec<Unique>>, current }`;
